@@ -341,8 +341,9 @@ def set_labeling(lab) -> None:
     if lab is None:
         _LAB = None
     else:
-        prefix, perm, order = lab
-        _LAB = (str(prefix), tuple(x if isinstance(x, str) else int(x) for x in perm), tuple(int(x) for x in order))
+        prefix, perm, order = lab[:3]
+        _LAB = (str(prefix), tuple(x if isinstance(x, str) else int(x) for x in perm), tuple(int(x) for x in order)) + \
+            ((str(lab[3]),) if len(lab) > 3 and lab[3] else ())
 
 
 def get_labeling() -> Optional[tuple]:
@@ -371,6 +372,17 @@ NAMESPACE_NAMES = ["synth_asign_block_0", "synth_asign_block_1", "loop_region_0"
                    "__scfg_control_var_0__", "synth_head_block_1", "loop_region_1"]
 
 
+def shared_generator():
+    """A NameGenerator that an earlier, unrelated graph has already used (the ``name_gen`` constructor field is public).  The
+    primer is a two-block graph that was closed and restructured: the generator is no longer empty, but its counters are
+    still low, so names such as synth_asign_block_0 in the next graph are NOT covered by what was handed out before."""
+    from numba_scfg.core.datastructures.scfg import SCFG
+    from numba_scfg.core.datastructures.basic_block import BasicBlock
+    primer = SCFG(graph={"pa": BasicBlock(name="pa", _jump_targets=("pb",)), "pb": BasicBlock(name="pb")})
+    primer.restructure()
+    return primer.name_gen
+
+
 def labelings(n: int, level: str) -> List[tuple]:
     """Non-default labellings of an n-block graph.  level: 'all' | 'few' | 'one', optionally suffixed '+ns'."""
     ident = tuple(range(n))
@@ -384,9 +396,11 @@ def labelings(n: int, level: str) -> List[tuple]:
         ns = NAMESPACE_NAMES
         for off in range(len(ns)):
             win = tuple(ns[(off + j) % len(ns)] for j in range(n - 1))
-            out.append(("", ("entry",) + win, ident))
+            # every other window: the graph is constructed with a generator that an earlier graph has used
+            out.append(("", ("entry",) + win, ident) + (("shared",) if off % 2 else ()))
             if n > 2:
-                out.append(("", ("entry",) + tuple(reversed(win)), rev))
+                out.append(("", ("entry",) + tuple(reversed(win)), rev) + (() if off % 2 else ("shared",)))
+        out.append(("", ident, ident, "shared"))
         out += labelings(n, level)
         return out
     if level == "all":
@@ -416,7 +430,7 @@ def labelings(n: int, level: str) -> List[tuple]:
 def lab_tag(lab) -> str:
     if lab is None:
         return ""
-    return "~" + lab[0] + ".".join(str(x) for x in lab[1]) + "/" + ".".join(str(x) for x in lab[2])
+    return "~" + lab[0] + ".".join(str(x) for x in lab[1]) + "/" + ".".join(str(x) for x in lab[2]) + ("@" + lab[3] if len(lab) > 3 else "")
 
 
 # ---------------------------------------------------------------------------------------
@@ -430,7 +444,7 @@ def as_named(g: Graph) -> Dict[str, Tuple[str, ...]]:
     return {nm(i): tuple(nm(t) for t in g[i]) for i in _order(len(g))}
 
 
-def make_scfg(g: Graph, payload: str = "basic", rename: Optional[Dict[int, str]] = None):
+def make_scfg(g: Graph, payload: str = "basic", rename: Optional[Dict[int, str]] = None, shared: bool = False):
     """Build a fresh library SCFG for graph g.  payload in {basic, bytecode, ast, ast_expr}."""
     from numba_scfg.core.datastructures.scfg import SCFG
     from numba_scfg.core.datastructures.basic_block import BasicBlock, PythonBytecodeBlock, PythonASTBlock
@@ -449,6 +463,8 @@ def make_scfg(g: Graph, payload: str = "basic", rename: Optional[Dict[int, str]]
         else:
             raise ValueError(payload)
         blocks[name] = b
+    if shared or (not rename and _LAB is not None and len(_LAB) > 3 and _LAB[3] == "shared"):
+        return SCFG(graph=blocks, name_gen=shared_generator())
     return SCFG(graph=blocks)
 
 
